@@ -347,6 +347,9 @@ func (e *Eng) evalCallInner(st *State, call *ast.CallExpr) []*Val {
 		}
 		env["recv"] = recv
 	}
+	savedSpecPkg := e.specPkgPath
+	e.specPkgPath = con.Pkg
+	defer func() { e.specPkgPath = savedSpecPkg }()
 	for _, r := range con.Requires {
 		g := e.evalSpec(st, r, env, nil)
 		e.oblige(st, "pre", shortKey(key)+" requires "+r.String(), g.T, call.Pos())
